@@ -1,11 +1,12 @@
 use engine::Property;
 pub mod c07;
 pub mod c08;
+pub mod c11;
 pub mod c16;
 pub mod c17;
 pub mod c18;
 pub mod fb;
 
 pub fn properties() -> Vec<Box<dyn Property>> {
-    vec![Box::new(c07::C07), Box::new(c08::C08), Box::new(c16::C16), Box::new(c17::C17), Box::new(c18::C18)]
+    vec![Box::new(c07::C07), Box::new(c08::C08), Box::new(c11::C11), Box::new(c16::C16), Box::new(c17::C17), Box::new(c18::C18)]
 }
